@@ -519,6 +519,8 @@ func genRTT() *rapid.Generator[int64] {
 		rapid.Int64Range(1, 1000),
 		rapid.Int64Range(1, 1000),
 		rapid.Int64Range(100_000, 10_000_000_000),
+		// whole seconds and more, a few nanoseconds apart (relative differences of 1e-9 and less)
+		rapid.Map(rapid.Int64Range(0, 4), func(i int64) int64 { return 4_000_000_000 - i }),
 	)
 }
 
